@@ -76,7 +76,7 @@ Fixpoint history_of (k : nat) (c : scatalog) (cx : LstSpec.ctx) (l : list N) : o
       match l with
       | 224 :: 1 :: 0 :: 234 :: r => option_map (cons HIvm) (history_of k' c LstSpec.system_ctx r)
       | _ =>
-        match sp_value k cx l with
+        match sp_value k [Slots cx] l with
         | Some (None, r) => history_of k' c cx r
         | Some (Some v, r) =>
           if is_null_lst v then option_map (cons HIvm) (history_of k' c LstSpec.system_ctx r) else
